@@ -26,7 +26,13 @@ type BCase struct {
 	BgGC  bool   `json:"bg_gc,omitempty"` // another goroutine runs runtime.GC() and allocates during the call
 	Cap   int    `json:"cap,omitempty"`   // unused capacity behind the slice, in elements
 	Named bool   `json:"named,omitempty"`
+	// Flip: another goroutine keeps changing runtime.GOMAXPROCS (cycling through 2, 7, 3, 16, 5, 1, 6, 4 with pauses of
+	// 20..300 microseconds) while the helper runs; the helper is then called Rounds times (default 3) on fresh copies.
+	Flip   bool `json:"flip,omitempty"`
+	Rounds int  `json:"rounds,omitempty"`
 }
+
+var flipProcs = []int{2, 7, 3, 16, 5, 1, 6, 4}
 
 func splitmix(x uint64) uint64 {
 	x += 0x9E3779B97F4A7C15
@@ -102,6 +108,9 @@ func runBig[E any](k *kit[E], c BCase) pbt.Outcome {
 	if c.BgGC {
 		what += " while another goroutine runs garbage collections and allocates"
 	}
+	if c.Flip {
+		what += " while another goroutine keeps changing runtime.GOMAXPROCS (2, 7, 3, 16, 5, 1, 6, 4, ...)"
+	}
 	if c.Cap > 0 {
 		what += fmt.Sprintf(", slice has %d elements of unused capacity", c.Cap)
 	}
@@ -114,6 +123,9 @@ func runBig[E any](k *kit[E], c BCase) pbt.Outcome {
 	}
 	if c.Cap > 0 {
 		lab = append(lab, "huge-unused-capacity")
+	}
+	if c.Flip {
+		lab = append(lab, "GOMAXPROCS-changing-during-the-call")
 	}
 	out := pbt.Outcome{Evals: 1, NonTrivial: n >= 100, Labels: lab}
 
@@ -177,7 +189,32 @@ func runBig[E any](k *kit[E], c BCase) pbt.Outcome {
 			defer func() { close(stop); <-done }()
 			time.Sleep(200 * time.Microsecond)
 		}
+		if c.Flip {
+			stop, done := make(chan struct{}), make(chan struct{})
+			old := runtime.GOMAXPROCS(0)
+			go func() {
+				defer close(done)
+				for i := 0; ; i++ {
+					select {
+					case <-stop:
+						return
+					default:
+					}
+					runtime.GOMAXPROCS(flipProcs[i%len(flipProcs)])
+					time.Sleep(time.Duration(20+splitmix(c.Seed+uint64(i))%280) * time.Microsecond)
+				}
+			}()
+			defer func() { close(stop); <-done; runtime.GOMAXPROCS(old) }()
+			time.Sleep(100 * time.Microsecond)
+		}
 		call()
+	}
+	rounds := 1
+	if c.Flip {
+		rounds = 3
+		if c.Rounds > 0 {
+			rounds = c.Rounds
+		}
 	}
 
 	switch c.Fn {
@@ -264,10 +301,13 @@ func runBig[E any](k *kit[E], c BCase) pbt.Outcome {
 		if f.name != c.Fn {
 			continue
 		}
-		s := build(keys)
-		around(func() { f.call(s, k.less, c.Named) })
-		if m := k.verify(s, keys, f.dir, f.stable); m != "" {
-			return pbt.Fail("%s: %s", what, m)
+		var s []E
+		for round := 0; round < rounds; round++ {
+			s = build(keys)
+			around(func() { f.call(s, k.less, c.Named) })
+			if m := k.verify(s, keys, f.dir, f.stable); m != "" {
+				return pbt.Fail("%s: %s", what, m)
+			}
 		}
 		if m := guardsOK(s); m != "" {
 			return pbt.Fail("%s: %s", what, m)
@@ -291,6 +331,9 @@ func log2(n int) int {
 }
 
 func RunBig(c BCase) pbt.Outcome {
+	if c.Fn == "ShuffleZeroSize" {
+		return runShuffleZeroSize(c)
+	}
 	r := runners[c.Type]
 	if r == nil {
 		return pbt.Outcome{Skipped: true}
@@ -408,6 +451,22 @@ func enumBig(shard, shards int, tier string, rot uint64, yield func(BCase) bool)
 				}
 			}
 		}
+		// GOMAXPROCS changed by another goroutine while the helper runs
+		for fi, fn := range bigFns {
+			flipSizes := []int{1<<13 + fi, 1<<15 + 1, 1 << 16, 1<<17 + 17 + fi}
+			if tier == "thorough" && pass < 2 {
+				flipSizes = append(flipSizes, 1<<19+fi, 1<<20+5)
+			}
+			for j, n := range flipSizes {
+				tp, mod, shape := pick(fn, n, false)
+				if isOrderedFn(fn) && j == 2 {
+					tp, mod, shape = "int", wideKeys, "rand"
+				}
+				if !emit(BCase{Fn: fn, Type: tp, N: n, Mod: mod, Shape: shape, Seed: splitmix(ctr), Flip: true, Rounds: 3 + 3*(j%2)}) {
+					return
+				}
+			}
+		}
 	}
 }
 
@@ -418,7 +477,8 @@ var specBig = pbt.Register(&pbt.Spec[BCase]{
 		"SortStableFunc, SortStableDescFunc, BinarySearch(+Func, 65 targets) and ShuffleRand(+Shuffle) at n = 2^p-1, 2^p, 2^p+1 for every p in 7..17 (thorough: ..20, six passes); (b) each helper under " +
 		"GOMAXPROCS = 1, 2, 3, 5, 6, 7 at n slightly above 2^16 or 2^17 (thorough also 2^18); (c) each moving helper on 20000 and 65537 elements that hold references (strings, pointers, slices, interfaces) " +
 		"built inside the case, while another goroutine keeps running runtime.GC() and allocating same-size objects; (d) each moving helper on slices of 0, ~100, ~5000 elements with more than 2 MiB of " +
-		"unused capacity (three guard elements inside it). Checked: permutation (every original index once with intact contents / same multiset), ordered in the promised direction, stability for the " +
+		"unused capacity (three guard elements inside it); (e) each helper at n ~ 2^13, 2^15, 2^16, 2^17 (thorough also 2^19, 2^20), called 3 or 6 times while another goroutine keeps changing runtime.GOMAXPROCS (cycling through " +
+		"2, 7, 3, 16, 5, 1, 6, 4 with pauses of 20..300 microseconds). Checked: permutation (every original index once with intact contents / same multiset), ordered in the promised direction, stability for the " +
 		"stable variants, result unchanged after yielding the CPU once more, lower bound for the searches (against sort.SearchInts on the keys), ShuffleRand equal for two generators of the same seed; " +
 		"non-trivial = at least 100 elements",
 	Enum: func(shard, shards int, tier string, yield func(BCase) bool) {
